@@ -285,3 +285,138 @@ Proof.
   intros Hax HF Hx. unfold along_axis. rewrite (prodn_split shape ax Hax) in Hx |- *.
   apply along_length; assumption.
 Qed.
+
+(* ================================================================== *)
+(* Extensionality and additivity of "apply along an axis"              *)
+(* ================================================================== *)
+Fixpoint zipw {A} (f : A -> A -> A) (x y : list A) : list A :=
+  match x, y with a :: x', b :: y' => f a b :: zipw f x' y' | _, _ => [] end.
+
+Lemma map_ext_rect (F G : Rvec -> Rvec) r c (m : Rmat) :
+  (forall l, length l = c -> F l = G l) -> rect r c m -> map F m = map G m.
+Proof.
+  intros HFG [_ Hf]. induction Hf as [|row m Hrow _ IH]; cbn [map]; [reflexivity|].
+  rewrite HFG by assumption. rewrite IH. reflexivity.
+Qed.
+
+Lemma along_block_ext n inner n' (F G : Rvec -> Rvec) (blk : Rvec) :
+  (forall l, length l = n -> F l = G l) -> length blk = (n * inner)%nat ->
+  along_block n inner n' F blk = along_block n inner n' G blk.
+Proof.
+  intros HFG Hb. unfold along_block.
+  rewrite (map_ext_rect F G inner n); [reflexivity | assumption | apply transp_rect, chunks_rect, Hb].
+Qed.
+
+Lemma along_ext outer n inner n' (F G : Rvec -> Rvec) (x : Rvec) :
+  (forall l, length l = n -> F l = G l) -> length x = (outer * (n * inner))%nat ->
+  along outer n inner n' F x = along outer n inner n' G x.
+Proof.
+  intros HFG Hx. unfold along.
+  rewrite (map_ext_rect (along_block n inner n' F) (along_block n inner n' G) outer (n * inner));
+    [reflexivity | intros l Hl; apply along_block_ext; assumption | apply chunks_rect, Hx].
+Qed.
+
+Lemma along_axis_ext (shape : list nat) (ax : nat) (F G : Rvec -> Rvec) (x : Rvec) :
+  (ax < length shape)%nat -> (forall l, length l = nth ax shape 0%nat -> F l = G l) ->
+  length x = prodn shape -> along_axis shape ax F x = along_axis shape ax G x.
+Proof.
+  intros Hax HFG Hx. unfold along_axis. rewrite (prodn_split shape ax Hax) in Hx.
+  apply along_ext; assumption.
+Qed.
+
+Section Zipw.
+Variable op : R -> R -> R.
+
+Lemma vmap2_app (a a' b b' : Rvec) : length a = length b ->
+  vmap2 op (a ++ a') (b ++ b') = vmap2 op a b ++ vmap2 op a' b'.
+Proof.
+  revert b; induction a as [|h a IH]; intros [|k b] Hl; cbn in Hl; try congruence; cbn [app vmap2].
+  - reflexivity.
+  - rewrite IH by congruence. reflexivity.
+Qed.
+
+Lemma concat_zipw (a b : Rmat) r c : rect r c a -> rect r c b ->
+  concat (zipw (vmap2 op) a b) = vmap2 op (concat a) (concat b).
+Proof.
+  revert b r; induction a as [|row a IH]; intros [|s b] r Ha Hb.
+  - reflexivity.
+  - destruct Ha as [Ha _], Hb as [Hb _]; cbn in *; congruence.
+  - destruct Ha as [Ha _], Hb as [Hb _]; cbn in *; congruence.
+  - destruct r as [|r]; [destruct Ha as [Ha _]; cbn in Ha; congruence|].
+    apply rect_inv in Ha as [Hl Ha]; apply rect_inv in Hb as [Hs Hb].
+    cbn [zipw concat]. rewrite vmap2_app by congruence. rewrite (IH b r) by assumption. reflexivity.
+Qed.
+
+Lemma zipcons_zipw (a b : Rvec) (x y : Rmat) r : length a = length b ->
+  rect (length a) r x -> rect (length a) r y ->
+  Axis.zipcons (vmap2 op a b) (zipw (vmap2 op) x y) =
+  zipw (vmap2 op) (Axis.zipcons a x) (Axis.zipcons b y).
+Proof.
+  revert b x y; induction a as [|h a IH]; intros [|k b] x y Hl Hx Hy; cbn in Hl; try congruence.
+  - reflexivity.
+  - destruct x as [|x0 x]; [destruct Hx as [Hx _]; cbn in Hx; congruence|].
+    destruct y as [|y0 y]; [destruct Hy as [Hy _]; cbn in Hy; congruence|].
+    cbn [length] in *. apply rect_inv in Hx as [Hx0 Hx]; apply rect_inv in Hy as [Hy0 Hy].
+    cbn [vmap2 zipw Axis.zipcons]. rewrite IH by (assumption || congruence). reflexivity.
+Qed.
+
+Lemma zipw_repeat_nil c : zipw (vmap2 op) (repeat (@nil R) c) (repeat (@nil R) c) = repeat [] c.
+Proof. induction c as [|c IH]; cbn [repeat zipw vmap2]; [reflexivity | rewrite IH; reflexivity]. Qed.
+
+Lemma transp_zipw (a b : Rmat) r c : rect r c a -> rect r c b ->
+  transp c (zipw (vmap2 op) a b) = zipw (vmap2 op) (transp c a) (transp c b).
+Proof.
+  revert b r; induction a as [|row a IH]; intros [|s b] r Ha Hb.
+  - cbn [zipw transp]. rewrite zipw_repeat_nil. reflexivity.
+  - destruct Ha as [Ha _], Hb as [Hb _]; cbn in *; congruence.
+  - destruct Ha as [Ha _], Hb as [Hb _]; cbn in *; congruence.
+  - destruct r as [|r]; [destruct Ha as [Ha _]; cbn in Ha; congruence|].
+    apply rect_inv in Ha as [Hl Ha]; apply rect_inv in Hb as [Hs Hb].
+    cbn [zipw transp]. rewrite (IH b r) by assumption. subst c.
+    apply (zipcons_zipw row s _ _ r); [congruence | apply transp_rect; assumption | apply transp_rect; assumption].
+Qed.
+
+Lemma map_zipw (F1 F2 : Rvec -> Rvec) (m : Rmat) :
+  map (fun l => vmap2 op (F1 l) (F2 l)) m = zipw (vmap2 op) (map F1 m) (map F2 m).
+Proof. induction m as [|row m IH]; cbn [map zipw]; [reflexivity | rewrite IH; reflexivity]. Qed.
+
+Lemma along_block_vmap2 n inner n' (F1 F2 : Rvec -> Rvec) (blk : Rvec) :
+  (forall l, length l = n -> length (F1 l) = n') -> (forall l, length l = n -> length (F2 l) = n') ->
+  length blk = (n * inner)%nat ->
+  along_block n inner n' (fun l => vmap2 op (F1 l) (F2 l)) blk =
+  vmap2 op (along_block n inner n' F1 blk) (along_block n inner n' F2 blk).
+Proof.
+  intros H1 H2 Hb. unfold along_block.
+  assert (HMt : rect inner n (transp inner (chunks inner n blk))) by (apply transp_rect, chunks_rect, Hb).
+  rewrite map_zipw.
+  rewrite (transp_zipw _ _ inner n') by (apply (map_rect _ inner n n'); assumption).
+  apply (concat_zipw _ _ n' inner); apply transp_rect, (map_rect _ inner n n'); assumption.
+Qed.
+
+Lemma along_vmap2 outer n inner n' (F1 F2 : Rvec -> Rvec) (x : Rvec) :
+  (forall l, length l = n -> length (F1 l) = n') -> (forall l, length l = n -> length (F2 l) = n') ->
+  length x = (outer * (n * inner))%nat ->
+  along outer n inner n' (fun l => vmap2 op (F1 l) (F2 l)) x =
+  vmap2 op (along outer n inner n' F1 x) (along outer n inner n' F2 x).
+Proof.
+  intros H1 H2 Hx. unfold along.
+  assert (HX : rect outer (n * inner) (chunks (n * inner) outer x)) by (apply chunks_rect, Hx).
+  rewrite (map_ext_rect _ (fun b => vmap2 op (along_block n inner n' F1 b) (along_block n inner n' F2 b))
+             outer (n * inner)); [ | intros l Hl; apply along_block_vmap2; assumption | assumption ].
+  rewrite map_zipw.
+  apply (concat_zipw _ _ outer (n' * inner)); apply (map_rect _ outer (n * inner) (n' * inner)); try assumption;
+    intros l Hl; apply along_block_length; assumption.
+Qed.
+
+Lemma along_axis_vmap2 (shape : list nat) (ax : nat) (F1 F2 : Rvec -> Rvec) (x : Rvec) :
+  (ax < length shape)%nat ->
+  (forall l, length l = nth ax shape 0%nat -> length (F1 l) = nth ax shape 0%nat) ->
+  (forall l, length l = nth ax shape 0%nat -> length (F2 l) = nth ax shape 0%nat) ->
+  length x = prodn shape ->
+  along_axis shape ax (fun l => vmap2 op (F1 l) (F2 l)) x =
+  vmap2 op (along_axis shape ax F1 x) (along_axis shape ax F2 x).
+Proof.
+  intros Hax H1 H2 Hx. unfold along_axis. rewrite (prodn_split shape ax Hax) in Hx.
+  apply along_vmap2; assumption.
+Qed.
+End Zipw.
